@@ -526,6 +526,21 @@ func (a *AdmitCase) intendedTimeLimit() bool {
 
 const wallClockSuspicion = 800 * time.Millisecond
 
+var onlyCheckedRe = regexp.MustCompile(`only checked against the first (\d+) of (\d+) existing pods`)
+
+// cutShort: the answer says the dry run stopped early at a place other than the pod cap, or that the listing failed
+func cutShort(o AdmitOut) bool {
+	for _, w := range o.Warnings {
+		if m := onlyCheckedRe.FindStringSubmatch(w); m != nil && m[1] != "3000" {
+			return true
+		}
+		if strings.Contains(w, "failed to list pods") {
+			return true
+		}
+	}
+	return false
+}
+
 var invalidValueRe = regexp.MustCompile(`^Invalid value: (".*?"): `)
 
 var realEvaluator policy.Evaluator
@@ -600,7 +615,7 @@ func (a *AdmitCase) runGo() (out AdmitOut) {
 	for try := 0; try < 4; try++ {
 		t0 := time.Now()
 		out = a.runGoOnce()
-		if a.intendedTimeLimit() || time.Since(t0) < wallClockSuspicion {
+		if a.intendedTimeLimit() || a.ListErr || time.Since(t0) < wallClockSuspicion || !cutShort(out) {
 			return out
 		}
 		out.ClockHit = true
@@ -870,7 +885,7 @@ func runHistory(group []*AdmitCase, order []int) []AdmitOut {
 			t0 := time.Now()
 			resp := adm.Validate(ctx, a.attributes())
 			outs[i] = projectResponse(resp, h.rec.ev, h.ev.calls, h.lister)
-			outs[i].ClockHit = !a.intendedTimeLimit() && time.Since(t0) >= wallClockSuspicion
+			outs[i].ClockHit = !a.intendedTimeLimit() && !a.ListErr && time.Since(t0) >= wallClockSuspicion && cutShort(outs[i])
 		}()
 	}
 	return outs
